@@ -138,6 +138,15 @@ type embOuter struct {
 	Own string
 }
 
+// containers whose type also has a String method: still containers
+type tagList []string
+
+func (t tagList) String() string { return "tags:" + strings.Join(t, "+") }
+
+type strMap map[string]string
+
+func (m strMap) String() string { return fmt.Sprintf("strMap(%d)", len(m)) }
+
 type funcFields struct {
 	F func() string
 	N func() string
@@ -254,6 +263,17 @@ func fixtureByID(id string) (stick.Value, error) {
 			return nil, err
 		}
 		return vAll{p4[1], float64(q) / 64, p4[3] == "t"}, nil
+	case "tags":
+		return tagList(splitList(arg(1))), nil
+	case "smap":
+		m := strMap{}
+		for _, it := range splitList(arg(1)) {
+			p := strings.SplitN(it, "=", 2)
+			if len(p) == 2 {
+				m[p[0]] = p[1]
+			}
+		}
+		return m, nil
 	case "time":
 		return time.Parse(time.RFC3339, id[5:])
 	case "huge":
@@ -330,6 +350,10 @@ func fixtureByID(id string) (stick.Value, error) {
 		case embOuter:
 			return &v, nil
 		case funcFields:
+			return &v, nil
+		case tagList:
+			return &v, nil
+		case strMap:
 			return &v, nil
 		case map[interface{}]string:
 			return &v, nil
